@@ -296,6 +296,22 @@ def run(ctx):
 
     def conv(x):
         return CONV % ((re.escape(x),) * 5)
+
+    def canon_selector(e):
+        """one spelling per meaning for the forwarded selector term: the bounds of an inclusive range are `RangeInclusive::start/end(r)`
+        whether read through the accessors, `into_inner()` (= (start, end)) or the bound accessors of RangeBounds; a clone/copy of a bound
+        is the bound; `RangeInclusive { start, end, exhausted: false }` is `RangeInclusive::new(start, end)`; a `(Bound, Bound)` pair or
+        struct-literal of the same kind is what it denotes"""
+        prev = None
+        while prev != e:
+            prev = e
+            e = re.sub(r"RangeInclusive::into_inner\((arg1)\)\.0", r"RangeInclusive::start(\1)", e)
+            e = re.sub(r"RangeInclusive::into_inner\((arg1)\)\.1", r"RangeInclusive::end(\1)", e)
+            e = re.sub(r"RangeBounds::start_bound\((arg1)\)@Included\.0", r"RangeInclusive::start(\1)", e)
+            e = re.sub(r"RangeBounds::end_bound\((arg1)\)@Included\.0", r"RangeInclusive::end(\1)", e)
+            e = re.sub(r"(?:\w+::)*(?:clone|to_owned|borrow)\(((?:RangeInclusive::(?:start|end)\(arg1\))|arg1(?:\.\w+)*)\)", r"\1", e)
+            e = re.sub(r"^RangeInclusive\{start: (.*), end: (.*), exhausted: 0\}$", r"RangeInclusive::new(\1, \2)", e)
+        return e
     for b in bodies:
         if b in direct:
             continue
@@ -304,7 +320,7 @@ def run(ctx):
         if len(calls) != 1:
             continue
         from ..flow import expr as _expr
-        e = _expr(ib, calls[0][1]["args"][0])
+        e = canon_selector(_expr(ib, calls[0][1]["args"][0]))
         kind = re.sub(r"<.*$", "", b.impl_self).split("::")[-1]
         tmpl = {
             "RangeFull": r"^arg1$",
@@ -315,6 +331,23 @@ def run(ctx):
             "RangeToInclusive": r"^RangeToInclusive\{end: %s\}$" % conv("arg1.end"),
         }.get(kind)
         ok = tmpl is not None and re.match(tmpl, e) is not None
+        # "resolution happens in range_bounds alone" also means the impl does not answer None by itself on a condition over the selector: a None
+        # built here is acceptable only under tests of the axis length alone (an exact `size == 0` shortcut), never of the selector's bounds
+        own_none = []
+        icfg = ib.cfg()
+        for bb, blk in enumerate(ib.blocks):
+            if blk["cleanup"] or bb not in icfg.reach:
+                continue
+            for s_ in blk["stmts"]:
+                if s_["k"] == "assign" and s_["rv"]["k"] == "agg" and s_["rv"].get("adt") == "std::option::Option" and s_["rv"].get("variant") == "None" \
+                        and re.search(r"Option<\(usize, usize\)>", ib.local_ty(s_["place"]["l"])):
+                    for gb, gblk in enumerate(ib.blocks):
+                        gt = gblk["term"]
+                        if gt["k"] == "switch" and gb != bb and icfg.dominates(gb, bb) and "arg1" in _expr(ib, gt["d"]):
+                            own_none.append(_expr(ib, gt["d"])[:80])
+        if own_none:
+            ok = False
+            e = "None when %s; otherwise %s" % (own_none[0], e)
         ctx.instance("DELEGATE-KIND", {"impl": b.impl_self, "forwards": e[:140], "ok": ok})
         if not ok:
             ctx.violation("DELEGATE-KIND", b.path, "forwarded-selector",
